@@ -78,7 +78,10 @@ type worker struct {
 	tmpl     string // frozen copy of the seeded store
 	env      *fx.Env
 	cl       *s3c.Client
-	base     snap.Snap
+	base     snap.Snap // reference of the oracle (the seed; in the history lane the state after the account change)
+	seedBase snap.Snap
+	restores int       // number of store restores so far
+	hist     *histAcct // history lane: the account whose credentials changed
 	st       *catalog.State
 	canaries []string
 	defs     []*defect
@@ -124,6 +127,7 @@ func (w *worker) start() error {
 	}
 	w.cl = env.Client(0)
 	w.base, err = w.snapshot()
+	w.seedBase = w.base
 	return err
 }
 
@@ -194,6 +198,7 @@ func (w *worker) ensureOwnGateway() error {
 // restore replaces the working store by a fresh copy of the template and restarts the gateway.
 func (w *worker) restore() error {
 	w.c.Add("store_restores", 1)
+	w.restores++
 	w.env.GWs[0].Kill()
 	if err := os.RemoveAll(w.env.Store.Base); err != nil {
 		return err
@@ -212,9 +217,10 @@ func (w *worker) restore() error {
 	if err != nil {
 		return err
 	}
-	if d := snap.Diff(w.base, s); len(d) > 0 {
+	if d := snap.Diff(w.seedBase, s); len(d) > 0 {
 		return fmt.Errorf("restored store differs from the template: %s", d[0])
 	}
+	w.base = w.seedBase
 	return nil
 }
 
@@ -335,6 +341,9 @@ func (w *worker) send(rq *s3c.Req, cl *s3c.Client) (*s3c.Built, *s3c.Resp) {
 var accounts = []string{"root", "admin"}
 
 func (w *worker) client(acct string) *s3c.Client {
+	if acct == "hist" {
+		return w.cl.With(w.hist.access, w.hist.cur)
+	}
 	if acct == "admin" {
 		return w.cl.With(w.st.Admin.Access, w.st.Admin.Secret)
 	}
@@ -431,6 +440,24 @@ func (w *worker) hostile(e *catalog.Entry, a catalog.Args, p plan, acct, id stri
 		w.c.Inconclusive("local re-signer disagrees with s3c on a correct signature")
 		return w.afterCase(len(w.diff()) > 0, id)
 	}
+	if !p.d.ambig {
+		w.account(e, p.d.name, p.cls, acct, live)
+	}
+	return w.afterCase(w.judge(e, p.d.name, p.d.ambig, p.cls, acct, id, live, b, resp), id)
+}
+
+// account counts a judged case as distinct non-trivial (control live) or trivial.
+func (w *worker) account(e *catalog.Entry, dname string, cls class, acct string, live bool) {
+	if live {
+		w.c.Distinct(w.lane + "|" + e.Name + "|" + dname + "|" + cls.name + "|" + acct)
+	} else {
+		w.c.Add("trivial_dead_endpoint", 1)
+	}
+}
+
+// judge applies the oracle to one answered hostile request: status 4xx, store equal to the
+// reference snapshot, no canary in the response. It reports whether the store changed.
+func (w *worker) judge(e *catalog.Entry, dname string, ambig bool, cls class, acct, id string, live bool, b *s3c.Built, resp *s3c.Resp) (changed bool) {
 	d := w.diff()
 	leaked := w.disclosed(b, resp)
 	var effects []string
@@ -450,42 +477,37 @@ func (w *worker) hostile(e *catalog.Entry, a catalog.Args, p plan, acct, id stri
 	if len(leaked) > 0 {
 		effects = append(effects, "data-disclosed")
 	}
-	if p.d.ambig {
+	if ambig {
 		if len(effects) > 0 {
-			w.c.Observe(fmt.Sprintf("ambiguous defect %s accepted (%s) - not judged", p.d.name, strings.Join(effects, ",")))
+			w.c.Observe(fmt.Sprintf("ambiguous defect %s accepted (%s) - not judged", dname, strings.Join(effects, ",")))
 		}
 		w.c.Add("ambiguous_not_judged", 1)
-	} else {
-		if live {
-			w.c.Distinct(w.lane + "|" + e.Name + "|" + p.d.name + "|" + p.cls.name + "|" + acct)
-		} else {
-			w.c.Add("trivial_dead_endpoint", 1)
-		}
-		if len(effects) > 0 {
-			det := describe(b, resp)
-			det["endpoint"], det["defect"], det["class"], det["account"], det["positive_control_live"] = e.Name, p.d.name, p.cls.name, acct, live
-			if len(d) > 8 {
-				det["tree_diff"] = append(append([]string{}, d[:8]...), fmt.Sprintf("... %d more", len(d)-8))
-			} else if len(d) > 0 {
-				det["tree_diff"] = d
-			}
-			if len(leaked) > 0 {
-				det["disclosed"] = leaked
-			}
-			// the payload encoding is part of the defect name when it is an aws-chunked one
-			// ("unsigned-trailer upload with a bad header signature" is a defect of its own)
-			dn := p.d.name
-			if p.cls.stream != "" {
-				dn += "@" + strings.TrimSuffix(p.cls.name, "-big")
-			}
-			for _, ef := range effects {
-				w.c.Violation(e.Name+":"+dn+":"+ef, id, det)
-			}
-		} else if resp.Err == nil {
-			w.c.Add("refused_4xx", 1)
-		}
+		return len(d) > 0
 	}
-	return w.afterCase(len(d) > 0, id)
+	if len(effects) > 0 {
+		det := describe(b, resp)
+		det["endpoint"], det["defect"], det["class"], det["account"], det["positive_control_live"] = e.Name, dname, cls.name, acct, live
+		if len(d) > 8 {
+			det["tree_diff"] = append(append([]string{}, d[:8]...), fmt.Sprintf("... %d more", len(d)-8))
+		} else if len(d) > 0 {
+			det["tree_diff"] = d
+		}
+		if len(leaked) > 0 {
+			det["disclosed"] = leaked
+		}
+		// the payload encoding is part of the defect name when it is an aws-chunked one
+		// ("unsigned-trailer upload with a bad header signature" is a defect of its own)
+		dn := dname
+		if cls.stream != "" {
+			dn += "@" + strings.TrimSuffix(cls.name, "-big")
+		}
+		for _, ef := range effects {
+			w.c.Violation(e.Name+":"+dn+":"+ef, id, det)
+		}
+	} else if resp.Err == nil {
+		w.c.Add("refused_4xx", 1)
+	}
+	return len(d) > 0
 }
 
 var reTmpName = regexp.MustCompile(`/\.sgwtmp/(multipart/[0-9a-f]{64}/)?[0-9a-f]{64}\.[0-9]+ \[`)
@@ -697,6 +719,8 @@ func Run(c *ev.Ctx) int {
 		only = func(e *catalog.Entry) bool { return e.Streamable || e.NoDrain }
 	}
 	lane(c, "s", gw.Config{Versioning: true, Sidecar: true, NoOTmp: true}, 14, only)
+	// credentials that WERE valid: rotated / deleted / re-created accounts (history.go)
+	historyLane(c, "h", gw.Config{Versioning: true})
 	var names []string
 	for _, d := range defects() {
 		names = append(names, d.name)
